@@ -298,6 +298,7 @@ theorem segMatchValues_no_oof {rec : SegRec} {env negate chain} (hrec : SegRecOK
     | num q => unfold segMatchValues; exact ih _
     | arr xs => unfold segMatchValues; exact ih _
     | obj kvs => unfold segMatchValues; exact ih _
+    | raw w => unfold segMatchValues; exact ih _
 
 theorem clauseMatch_no_oof {rec : SegRec} {env chain} (hrec : SegRecOK rec env chain) (c st) :
     (clauseMatch rec env chain c st).1 ≠ .oof := by
